@@ -447,9 +447,27 @@ var (
 
 // text probe i: scalar s (as array element, object value and, for strings,
 // as key) x write option set x input format.
-func nTextProbes() int { return len(pScalars) * len(probeWOpts) * 2 * 2 }
+// extra fixed documents of the text probe block: combinations of listed
+// constructs that fail in their own way
+var textExtraDocs = []*Node{
+	// "+" written bare is the SEN string concatenation operator; the quoted key
+	// after it is then joined to a value that is not there
+	nObj().put("b", nStr("+")).put("k k", nInt(1)),
+	nArr(nStr("+"), nStr("x y")),
+	nObj().put("b", nStr("-")).put("k k", nInt(1)),
+}
+
+func nTextProbes() int {
+	return len(pScalars)*len(probeWOpts)*2*2 + len(textExtraDocs)*len(probeWOpts)
+}
 
 func textProbe(i int) Case {
+	if base := len(pScalars) * len(probeWOpts) * 2 * 2; base <= i {
+		i -= base
+		doc := textExtraDocs[i/len(probeWOpts)]
+		w := probeWOpts[i%len(probeWOpts)]
+		return Case{Kind: "text", Doc: doc, Fmt: "json", Text: compactJSON(doc), Entry: "make-bag", W: &w, Probe: "text:extra"}
+	}
 	s := pScalars[i%len(pScalars)]
 	i /= len(pScalars)
 	w := probeWOpts[i%len(probeWOpts)]
